@@ -308,7 +308,7 @@ def run():
             reported[0] += 1
 
     with concurrent.futures.ThreadPoolExecutor(max_workers=4) as ex:
-        futs = [(c, ex.submit(run_one, impl, c)) for c in cfgs]
+        futs = [(c, ex.submit(run_one, impl, c, 40 if c['mode'] in ('relog', 'drain') else 120)) for c in cfgs]
         results = [(c, f.result()) for c, f in futs]
     for c, r in results:
         evaluate(chk, model, c, r, stats, report)
